@@ -693,7 +693,7 @@ func checkRPMSigning(c *Ctx, r *Report, pa *provAnalysis) {
 		// guarded by KeyFile != "" or SignFn != nil
 		cells := []struct {
 			key, fn string
-			want   bool
+			want    bool
 		}{{"", "nil", false}, {"key.gpg", "nil", true}}
 		_ = cells
 		guard := ""
